@@ -130,6 +130,12 @@ def run(tier, seed):
                                 'actual': str(got)[:200], 'expected': want[:3]}, 'm2c00_hlog')
         except ImportError as e:
             ck.skip('udparsers.m2c00 unavailable: %r' % e)
+        # ---- the same, with the io_drawer package installed as individual symbolic links into a store
+        try:
+            from io_drawer.drawer_type import DRAWER_TYPES as _DT
+            iod.check_linkfarm(ck, [(72, dt.user_data_version, d_) for dt in _DT for d_ in (bytes(range(1, 60)), b'\x01' * 9, bytes(5))], 'history logs')
+        except ImportError as e:
+            ck.skip('io_drawer.drawer_type unavailable: %r' % e)
         # ---- a header file that is rewritten between two decodes in one process
         synth = [pth for nm, pth in loader_files if nm.startswith('synth') and os.path.exists(pth)]
         hdata = bytes((7 * i + 1) % 256 for i in range(24))
